@@ -151,6 +151,23 @@ type gen struct {
 	consDone bool
 }
 
+// dirBytes sums the sizes of the chunk files in the queue directory (0 if it does not exist yet).
+func dirBytes(dir string, match func(string) bool) int64 {
+	if dir == "" {
+		return 0
+	}
+	var total int64
+	entries, _ := os.ReadDir(dir)
+	for _, e := range entries {
+		if match(e.Name()) {
+			if info, err := e.Info(); err == nil {
+				total += info.Size()
+			}
+		}
+	}
+	return total
+}
+
 func metric(mf *promreg.MetricFactory, name string, labels ...string) float64 {
 	return vh.Gather(mf).Sum("c03_buffer_"+name, labels...)
 }
@@ -229,6 +246,14 @@ func runCase(c Case) vh.Result {
 		b.Start()
 		g = &gen{b: b, mf: mf}
 		g.cons = newConsumer(b.RegisterNewConsumer(), confirmed)
+		if qdir == "" && !c.BadDir {
+			entries, _ := os.ReadDir(root)
+			for _, e := range entries {
+				if e.IsDir() {
+					qdir = filepath.Join(root, e.Name())
+				}
+			}
+		}
 	}
 	listFiles := func() map[string][]byte {
 		out := map[string][]byte{}
@@ -374,6 +399,16 @@ func runCase(c Case) vh.Result {
 					persBefore = metric(g.mf, "input_chunks_total", "state=persistent")
 					dropBefore = metric(g.mf, "dropped_chunks_total")
 				}
+				// a chunk may be discarded at Accept only for a documented reason: the disk limit would be exceeded, the
+				// queue is full, or the directory cannot be written. Files leave the directory only when the consumer
+				// confirms (inside this goroutine's operations), so the directory size cannot change under this Accept.
+				checkDrop := !c.BadDir && !overCapacity
+				var dirBefore int64
+				var m0 vh.Metrics
+				if checkDrop {
+					dirBefore = dirBytes(qdir, match)
+					m0 = vh.Gather(g.mf)
+				}
 				done := make(chan struct{})
 				go func() {
 					g.b.Accept(base.LogChunk{ID: id, Data: append([]byte(nil), data...)})
@@ -384,6 +419,17 @@ func runCase(c Case) vh.Result {
 				case <-time.After(20 * time.Second):
 					res.Violation = vh.Fail("buffer:accept-blocked", "op %d: Accept did not return within 20s while the consumer stalls\n%s", oi, vh.GoroutineDump())
 					return res
+				}
+				if checkDrop {
+					m1 := vh.Gather(g.mf)
+					dd := m1.Sum("c03_buffer_dropped_chunks_total") - m0.Sum("c03_buffer_dropped_chunks_total")
+					dio := m1.Sum("c03_buffer_io_errors_total") - m0.Sum("c03_buffer_io_errors_total")
+					queued := m0.Sum("c03_buffer_queued_chunks")
+					if dd >= 1 && dio == 0 && dirBefore+int64(len(data)) <= c.MaxBytes && queued < float64(c.MaxQueue-1) && qdir != "" {
+						res.Violation = vh.Fail("buffer:dropped-below-quota", "op %d: a chunk of %d bytes was discarded at Accept (dropped_chunks_total +%v, no I/O error) although the queue directory held only %d bytes of the %d allowed and %v of %d queue slots were in use", oi, len(data), dd, dirBefore, c.MaxBytes, queued, c.MaxQueue)
+						res.NonTrivial = true
+						return res
+					}
 				}
 				if armed {
 					pers := metric(g.mf, "input_chunks_total", "state=persistent") - persBefore
